@@ -230,3 +230,8 @@ def include(rep, env, tier, module_name, rule_prefixes, as_rule, why):
     rep.notes.append("%s: %d obligations of %s taken over from rules.%s - %s" % (as_rule, n, "/".join(rule_prefixes), module_name, why))
     if n == 0:
         rep.ob(as_rule, "missing|included rules", False, "mechanism missing: no obligation of %s produced by rules.%s" % (rule_prefixes, module_name))
+
+
+def infeasible(s):
+    """a state whose recorded facts contradict each other (interval reasoning alone did not notice)"""
+    return s.dead or any(s.entails(-f - 1) for f in s.facts)
